@@ -262,3 +262,22 @@ type BadInList struct {
 type BadInMap struct {
 	M map[string]interface{}
 }
+
+// Outer holds a struct by value as its first field: &o and &o.In are one address.
+type Outer struct {
+	In Small
+	X  int32
+}
+
+// Interior: pointers into the middle of other values and slices over one array.
+type Interior struct {
+	B *Small
+	A *Outer
+	C []int32
+	D []int32
+	E []*Small
+	F []*Small
+	G *Outer
+	H *Small
+	I []int32
+}
